@@ -193,3 +193,18 @@ def closed_contour(rng, n=None, size=300.0, ints=False):
             mids.append((mx + (mx - cx) * f, my + (my - cy) * f))
         segs.append(KINDS[kind](*[Point(x, y) for x, y in [a] + mids + [b]]))
     return segs
+
+
+def shared_node_path(rng, n=None, closed=None, ints=False):
+    """a connected chain whose neighbouring segments SHARE their common node as one Point object (as after splitAtTime / addExtremes, or a
+    polyline built from one list of Points); returns the list of segments"""
+    from beziers.point import Point as _P
+    n = n or rng.randint(2, 6); closed = rng.random() < 0.5 if closed is None else closed
+    def rp(): return _P(float(rng.randint(-300, 300)), float(rng.randint(-300, 300))) if ints else _P(rng.uniform(-300, 300), rng.uniform(-300, 300))
+    nodes = [rp() for _ in range(n + (0 if closed else 1))]
+    segs = []
+    for i in range(n):
+        a, b = nodes[i], nodes[(i + 1) % len(nodes)]
+        k = rng.choice([2, 3, 4])
+        segs.append(KINDS[k](a, *[rp() for _ in range(k - 2)], b))
+    return segs
